@@ -5,9 +5,11 @@
 package main
 
 import (
+	"bytes"
 	"context"
 	"fmt"
 	"net"
+	"net/http"
 	"os"
 	"path/filepath"
 	"sort"
@@ -88,6 +90,7 @@ type ev struct {
 	delChunks bool
 	fromOther bool
 	sigs      []int32
+	realKey   string // the queue key the real filer used (events captured from a real filer)
 }
 
 func dateOf(e *filer_pb.Entry) string {
@@ -95,7 +98,74 @@ func dateOf(e *filer_pb.Entry) string {
 }
 
 func coqEntry(e *filer_pb.Entry) string {
-	return fmt.Sprintf("{| e_name := %s; e_isdir := %s; e_date := %s |}", hx.Str(e.Name), hx.Bool(e.IsDirectory), hx.Str(dateOf(e)))
+	return fmt.Sprintf("{| e_name := %s; e_isdir := %s; e_date := %s; e_data := %s |}", hx.Str(e.Name), hx.Bool(e.IsDirectory), hx.Str(dateOf(e)), hx.Bytes(dataOf(e)))
+}
+
+// ---------- file content: chunks served by an in-process blob server ----------
+
+var (
+	blobMu   sync.Mutex
+	blobs    = map[string][]byte{} // file id -> bytes
+	blobAddr string
+)
+
+// chunksOf returns the (contiguous, non-overlapping) chunks of content version v
+// and registers their bytes with the blob server.
+func chunksOf(v int) []*filer_pb.FileChunk {
+	blobMu.Lock()
+	defer blobMu.Unlock()
+	var cs []*filer_pb.FileChunk
+	off := int64(0)
+	for i := 0; i < 1+v%2; i++ {
+		n := 2 + (v+i)%3
+		b := make([]byte, n)
+		for j := range b {
+			b[j] = byte((7*v + 3*i + j) % 251)
+		}
+		fid := fmt.Sprintf("3,%02x%08x", 1+2*v+i, 0x11223344)
+		blobs[fid] = b
+		cs = append(cs, &filer_pb.FileChunk{FileId: fid, Offset: off, Size: uint64(n), Mtime: int64(i + 1)})
+		off += int64(n)
+	}
+	return cs
+}
+
+// dataOf is the content an entry's chunks describe (offset order)
+func dataOf(e *filer_pb.Entry) []byte {
+	blobMu.Lock()
+	defer blobMu.Unlock()
+	cs := append([]*filer_pb.FileChunk(nil), e.Chunks...)
+	sort.Slice(cs, func(i, j int) bool { return cs[i].Offset < cs[j].Offset })
+	var out []byte
+	for _, c := range cs {
+		out = append(out, blobs[c.GetFileIdString()]...)
+	}
+	return out
+}
+
+func startBlobServer() {
+	if blobAddr != "" {
+		return
+	}
+	l, err := net.Listen("tcp", "127.0.0.1:0")
+	hx.Must(err)
+	blobAddr = l.Addr().String()
+	go http.Serve(l, http.HandlerFunc(func(w http.ResponseWriter, r *http.Request) {
+		blobMu.Lock()
+		b, ok := blobs[strings.TrimPrefix(r.URL.Path, "/")]
+		blobMu.Unlock()
+		if !ok {
+			http.NotFound(w, r)
+			return
+		}
+		http.ServeContent(w, r, "", time.Time{}, bytes.NewReader(b))
+	}))
+}
+
+func fileEntry(name string, mtime int64, v int) *filer_pb.Entry {
+	e := entry(name, false, mtime)
+	e.Chunks = chunksOf(v)
+	return e
 }
 
 func coqOptEntry(e *filer_pb.Entry) string {
@@ -119,7 +189,7 @@ func (e *ev) canon() string {
 		if x == nil {
 			return "-"
 		}
-		return fmt.Sprintf("%s:%v:%d", x.Name, x.IsDirectory, x.Attributes.Mtime)
+		return fmt.Sprintf("%s:%v:%s", x.Name, x.IsDirectory, dateOf(x))
 	}
 	return fmt.Sprintf("%s|%s|%s|%s|%v|%v|%v", e.dir, n(e.old), n(e.new), e.newParent, e.delChunks, e.fromOther, e.sigs)
 }
@@ -135,6 +205,9 @@ func (e *ev) resp() *filer_pb.SubscribeMetadataResponse {
 
 // the key under which weed/filer/filer_notify.go queues the event
 func (e *ev) key() string {
+	if e.realKey != "" {
+		return e.realKey
+	}
 	if e.old != nil {
 		return string(util.FullPath(e.dir).Child(e.old.Name))
 	}
@@ -165,8 +238,8 @@ func entry(name string, isDir bool, mtime int64) *filer_pb.Entry {
 
 var (
 	dirs    = []string{"/", "/data", "/data/a", "/data/a/b", "/data2", "/data2/a", "/dat", "/other", "/other/data", "/other/data/a"}
-	names   = []string{"a", "b", "x", "data", "data2", "dat"}
-	srcs    = []string{"/data", "/data/", "/", "/data/a", "/data/a/"}
+	names   = []string{"a", "b", "x", "data", "data2", "dat", "a b"}
+	srcs    = []string{"/data", "/data/", "/", "/data/a", "/data/a/", "/data", "/data/", "/", "/data/a", "/data/a/", "/data//", "data"}
 	tgts    = []string{"/backup", "/", "/data", "/t/u"}
 	mtimes  = []int64{0, 86400 * 400, 1614816000}
 	sigPool = []int32{0, 3, 7, 9}
@@ -245,6 +318,9 @@ func runRec(out *hx.Out, via string, c conf, e *ev, found bool, kindPrefix strin
 	}
 	s := &recSink{name: name, dir: c.tgt, inc: c.inc, found: found, want: e.sigs, sigsOK: true}
 	panicked := false
+	var second *ev // the response object as genProcessFunction left it, processed once more
+	var secondOps []string
+	secondPanicked := false
 	func() {
 		defer func() {
 			if p := recover(); p != nil {
@@ -257,17 +333,43 @@ func runRec(out *hx.Out, via string, c conf, e *ev, found bool, kindPrefix strin
 			hx.Must(rp.Replicate(context.Background(), e.key(), e.message()))
 		case "ViaSync":
 			f := command.VerifC36GenProcessFunction(c.src, c.tgt, s, false)
-			hx.Must(f(e.resp()))
+			resp := e.resp()
+			hx.Must(f(resp))
+			if m := resp.EventNotification; m.NewParentPath != e.newParent {
+				// genProcessFunction rewrote NewParentPath in the shared response: run the SAME object again
+				cp := *e
+				cp.newParent = m.NewParentPath
+				cp.realKey = ""
+				second = &cp
+				first := s.ops
+				s.ops = nil
+				func() {
+					defer func() {
+						if p := recover(); p != nil {
+							secondPanicked = true
+						}
+					}()
+					hx.Must(f(resp))
+				}()
+				secondOps = s.ops
+				s.ops = first
+			}
 		}
 	}()
-	term := fmt.Sprintf("CRec {| rc_via := %s; rc_cfg := %s; rc_key := %s; rc_ev := %s; rc_found := %s; rc_ops := %s; rc_panic := %s; rc_sigs_ok := %s |}",
-		via, c.coq(), hx.Str(e.key()), e.coq(), hx.Bool(found), hx.List(s.ops), hx.Bool(panicked), hx.Bool(s.sigsOK))
-	out.Add(term, fmt.Sprintf("%s|%v|%v|%s", via, c, found, e.canon()), len(s.ops) > 0, kindPrefix+via)
-	out.Count("event:"+e.kind(), 1)
-	out.Count(fmt.Sprintf("ops:%d", len(s.ops)), 1)
-	out.Count("src:"+c.src, 1)
-	if panicked {
-		out.Count("panic", 1)
+	emit := func(e *ev, ops []string, panicked bool, kind string) {
+		term := fmt.Sprintf("CRec {| rc_via := %s; rc_cfg := %s; rc_key := %s; rc_ev := %s; rc_found := %s; rc_real := %s; rc_ops := %s; rc_panic := %s; rc_sigs_ok := %s |}",
+			via, c.coq(), hx.Str(e.key()), e.coq(), hx.Bool(found), hx.Bool(e.realKey != ""), hx.List(ops), hx.Bool(panicked), hx.Bool(s.sigsOK))
+		out.Add(term, fmt.Sprintf("%s|%v|%v|%s", via, c, found, e.canon()), len(ops) > 0, kind)
+		out.Count("event:"+e.kind(), 1)
+		out.Count(fmt.Sprintf("ops:%d", len(ops)), 1)
+		out.Count("src:"+c.src, 1)
+		if panicked {
+			out.Count("panic", 1)
+		}
+	}
+	emit(e, s.ops, panicked, kindPrefix+via)
+	if second != nil {
+		emit(second, secondOps, secondPanicked, kindPrefix+"second-pass")
 	}
 }
 
@@ -279,12 +381,22 @@ type fakeFiler struct {
 	sig    int32
 	events []*filer_pb.SubscribeMetadataResponse
 	ops    []string
+	found  bool      // LookupDirectoryEntry answers with an existing entry
+	sigs   [][]int32 // Signatures of every mutating RPC
+	flags  []bool    // IsFromOtherCluster of every create / update RPC
 }
 
 func (f *fakeFiler) GetFilerConfiguration(ctx context.Context, req *filer_pb.GetFilerConfigurationRequest) (*filer_pb.GetFilerConfigurationResponse, error) {
 	f.mu.Lock()
 	defer f.mu.Unlock()
 	return &filer_pb.GetFilerConfigurationResponse{Signature: f.sig}, nil
+}
+func (f *fakeFiler) LookupVolume(ctx context.Context, req *filer_pb.LookupVolumeRequest) (*filer_pb.LookupVolumeResponse, error) {
+	resp := &filer_pb.LookupVolumeResponse{LocationsMap: map[string]*filer_pb.Locations{}}
+	for _, vid := range req.VolumeIds {
+		resp.LocationsMap[vid] = &filer_pb.Locations{Locations: []*filer_pb.Location{{Url: blobAddr, PublicUrl: blobAddr}}}
+	}
+	return resp, nil
 }
 func (f *fakeFiler) KvGet(ctx context.Context, req *filer_pb.KvGetRequest) (*filer_pb.KvGetResponse, error) {
 	return &filer_pb.KvGetResponse{}, nil
@@ -304,26 +416,37 @@ func (f *fakeFiler) SubscribeMetadata(req *filer_pb.SubscribeMetadataRequest, st
 	return nil
 }
 func (f *fakeFiler) LookupDirectoryEntry(ctx context.Context, req *filer_pb.LookupDirectoryEntryRequest) (*filer_pb.LookupDirectoryEntryResponse, error) {
+	f.mu.Lock()
+	defer f.mu.Unlock()
+	if f.found {
+		// an older entry of the same name, without chunks
+		return &filer_pb.LookupDirectoryEntryResponse{Entry: &filer_pb.Entry{Name: req.Name, Attributes: &filer_pb.FuseAttributes{Mtime: 0, FileMode: 0644}}}, nil
+	}
 	return nil, filer_pb.ErrNotFound
 }
 func (f *fakeFiler) CreateEntry(ctx context.Context, req *filer_pb.CreateEntryRequest) (*filer_pb.CreateEntryResponse, error) {
 	f.mu.Lock()
 	defer f.mu.Unlock()
 	key := string(util.NewFullPath(req.Directory, req.Entry.Name))
-	f.ops = append(f.ops, fmt.Sprintf("Create %s {| e_name := %s; e_isdir := %s; e_date := %s |}", hx.Str(key), hx.Str(req.Entry.Name), hx.Bool(req.Entry.IsDirectory), hx.Str("")))
+	f.sigs = append(f.sigs, req.Signatures)
+	f.flags = append(f.flags, req.IsFromOtherCluster)
+	f.ops = append(f.ops, fmt.Sprintf("Create %s {| e_name := %s; e_isdir := %s; e_date := %s; e_data := [] |}", hx.Str(key), hx.Str(req.Entry.Name), hx.Bool(req.Entry.IsDirectory), hx.Str("")))
 	return &filer_pb.CreateEntryResponse{}, nil
 }
 func (f *fakeFiler) UpdateEntry(ctx context.Context, req *filer_pb.UpdateEntryRequest) (*filer_pb.UpdateEntryResponse, error) {
 	f.mu.Lock()
 	defer f.mu.Unlock()
 	key := string(util.NewFullPath(req.Directory, req.Entry.Name))
-	f.ops = append(f.ops, fmt.Sprintf("Update %s %s {| e_name := %s; e_isdir := %s; e_date := %s |} false", hx.Str(key), hx.Str(req.Directory), hx.Str(req.Entry.Name), hx.Bool(req.Entry.IsDirectory), hx.Str("")))
+	f.sigs = append(f.sigs, req.Signatures)
+	f.flags = append(f.flags, req.IsFromOtherCluster)
+	f.ops = append(f.ops, fmt.Sprintf("Update %s %s {| e_name := %s; e_isdir := %s; e_date := %s; e_data := [] |} false", hx.Str(key), hx.Str(req.Directory), hx.Str(req.Entry.Name), hx.Bool(req.Entry.IsDirectory), hx.Str("")))
 	return &filer_pb.UpdateEntryResponse{}, nil
 }
 func (f *fakeFiler) DeleteEntry(ctx context.Context, req *filer_pb.DeleteEntryRequest) (*filer_pb.DeleteEntryResponse, error) {
 	f.mu.Lock()
 	defer f.mu.Unlock()
 	key := string(util.NewFullPath(req.Directory, req.Name))
+	f.sigs = append(f.sigs, req.Signatures)
 	f.ops = append(f.ops, fmt.Sprintf("Delete %s false %s", hx.Str(key), hx.Bool(req.IsDeleteData)))
 	return &filer_pb.DeleteEntryResponse{}, nil
 }
@@ -332,6 +455,8 @@ type grpcPair struct {
 	src, tgt         *fakeFiler
 	srcAddr, tgtAddr string
 }
+
+var lastGrpcAddr string // the listening address of the last served fake filer
 
 func serve(f *fakeFiler) string {
 	for {
@@ -345,6 +470,7 @@ func serve(f *fakeFiler) string {
 		s := grpc.NewServer()
 		filer_pb.RegisterSeaweedFilerServer(s, f)
 		go s.Serve(l)
+		lastGrpcAddr = fmt.Sprintf("127.0.0.1:%d", port)
 		return fmt.Sprintf("127.0.0.1:%d", port-10000)
 	}
 }
@@ -356,13 +482,16 @@ func newGrpcPair() *grpcPair {
 	return p
 }
 
-func runGrpc(out *hx.Out, p *grpcPair, c conf, e *ev) {
+func runGrpc(out *hx.Out, p *grpcPair, c conf, e *ev, found bool) {
 	p.src.mu.Lock()
 	p.src.events = []*filer_pb.SubscribeMetadataResponse{e.resp()}
 	p.src.mu.Unlock()
 	p.tgt.mu.Lock()
 	p.tgt.sig = c.sig
 	p.tgt.ops = nil
+	p.tgt.sigs = nil
+	p.tgt.flags = nil
+	p.tgt.found = found
 	p.tgt.mu.Unlock()
 	panicked := false
 	func() {
@@ -376,12 +505,23 @@ func runGrpc(out *hx.Out, p *grpcPair, c conf, e *ev) {
 	}()
 	p.tgt.mu.Lock()
 	ops := append([]string(nil), p.tgt.ops...)
+	// every mutating RPC carries the event's signatures unchanged and is marked as replicated
+	sigsOK := true
+	for _, sg := range p.tgt.sigs {
+		sigsOK = sigsOK && sameSigs(sg, e.sigs)
+	}
+	for _, fl := range p.tgt.flags {
+		sigsOK = sigsOK && fl
+	}
 	p.tgt.mu.Unlock()
 	c.inc = false
 	c.filer = true
-	term := fmt.Sprintf("CRec {| rc_via := ViaGrpc; rc_cfg := %s; rc_key := %s; rc_ev := %s; rc_found := false; rc_ops := %s; rc_panic := %s; rc_sigs_ok := true |}",
-		c.coq(), hx.Str(e.key()), e.coq(), hx.List(ops), hx.Bool(panicked))
-	out.Add(term, fmt.Sprintf("grpc|%v|%s", c, e.canon()), len(ops) > 0, "ViaGrpc")
+	term := fmt.Sprintf("CRec {| rc_via := ViaGrpc; rc_cfg := %s; rc_key := %s; rc_ev := %s; rc_found := %s; rc_real := false; rc_ops := %s; rc_panic := %s; rc_sigs_ok := %s |}",
+		c.coq(), hx.Str(e.key()), e.coq(), hx.Bool(found), hx.List(ops), hx.Bool(panicked), hx.Bool(sigsOK))
+	if found {
+		out.Count("grpc:target-has-entry", 1)
+	}
+	out.Add(term, fmt.Sprintf("grpc|%v|%v|%s", c, found, e.canon()), len(ops) > 0, "ViaGrpc")
 	out.Count("event:"+e.kind(), 1)
 	out.Count(fmt.Sprintf("ops:%d", len(ops)), 1)
 	carries := false
@@ -424,13 +564,18 @@ func (fs srcFS) sorted(pred func(p string, d bool) bool) []string {
 	return l
 }
 
-var lnames = []string{"a", "b", "f", "g", "data"}
+var lnames = []string{"a", "b", "f", "g", "data", "1.part"}
 
 // genLocalHistory simulates a source filer namespace and returns the events of
 // a valid history; renames (one event each) are produced with probability renamePct/100.
+var out0 *hx.Out
+var invalidPct = 6
+
 func genLocalHistory(r *hx.Rng, n int, renamePct int) []*ev {
-	fs := srcFS{"/": true, "/data": true, "/data/a": true, "/data2": true, "/other": true}
+	fs := srcFS{"/": true, "/data": true, "/data/a": true, "/data2": true, "/other": true, "/data/.uploads": true}
 	var evs []*ev
+	ver := map[string]int{} // path -> content version
+	nextVer := r.Intn(4)
 	split := func(p string) (string, string) { return filepath.Dir(p), filepath.Base(p) }
 	for len(evs) < n {
 		dirsNow := fs.sorted(func(p string, d bool) bool { return d })
@@ -451,7 +596,8 @@ func genLocalHistory(r *hx.Rng, n int, renamePct int) []*ev {
 			td, tn := split(to)
 			delete(fs, from)
 			fs[to] = false
-			evs = append(evs, &ev{dir: fd, old: entry(fn, false, 1614816000), new: entry(tn, false, 1614816000), newParent: td, delChunks: r.Bool()})
+			ver[to] = ver[from]
+			evs = append(evs, &ev{dir: fd, old: fileEntry(fn, 1614816000, ver[from]), new: fileEntry(tn, 1614816000, ver[to]), newParent: td, delChunks: r.Bool()})
 		case k < renamePct+35:
 			p := string(util.FullPath(r.PickStr(dirsNow)).Child(r.PickStr(lnames)))
 			if _, ok := fs[p]; ok {
@@ -459,7 +605,9 @@ func genLocalHistory(r *hx.Rng, n int, renamePct int) []*ev {
 			}
 			fs[p] = false
 			d, nm := split(p)
-			evs = append(evs, &ev{dir: d, new: entry(nm, false, 1614816000), newParent: d})
+			nextVer++
+			ver[p] = nextVer
+			evs = append(evs, &ev{dir: d, new: fileEntry(nm, 1614816000, ver[p]), newParent: d})
 		case k < renamePct+50:
 			p := string(util.FullPath(r.PickStr(dirsNow)).Child(r.PickStr(lnames)))
 			if _, ok := fs[p]; ok {
@@ -471,12 +619,38 @@ func genLocalHistory(r *hx.Rng, n int, renamePct int) []*ev {
 		case k < renamePct+65 && len(filesNow) > 0:
 			p := r.PickStr(filesNow)
 			d, nm := split(p)
-			evs = append(evs, &ev{dir: d, old: entry(nm, false, 1614816000), new: entry(nm, false, 1614816001), newParent: d, delChunks: true})
+			old := fileEntry(nm, 1614816000, ver[p])
+			nextVer += 1 + r.Intn(2) // the new content may be shorter than the old one (O_TRUNC)
+			ver[p] = nextVer
+			evs = append(evs, &ev{dir: d, old: old, new: fileEntry(nm, 1614816001, ver[p]), newParent: d, delChunks: true})
 		case k < renamePct+85 && len(filesNow) > 0:
 			p := r.PickStr(filesNow)
 			delete(fs, p)
 			d, nm := split(p)
-			evs = append(evs, &ev{dir: d, old: entry(nm, false, 1614816000), delChunks: true})
+			evs = append(evs, &ev{dir: d, old: fileEntry(nm, 1614816000, ver[p]), delChunks: true})
+		case k >= 94 && invalidPct > 0:
+			// an event no valid namespace history contains: a file created below a file, a file
+			// created where a directory is, a directory deleted where a file is
+			if len(filesNow) == 0 {
+				continue
+			}
+			switch r.Intn(3) {
+			case 0:
+				evs = append(evs, &ev{dir: r.PickStr(filesNow), new: entry("f", false, 1614816000)})
+				evs[len(evs)-1].newParent = evs[len(evs)-1].dir
+			case 1:
+				d, _ := split(r.PickStr(filesNow))
+				if d == "/" {
+					continue
+				}
+				dd, nm := split(d)
+				evs = append(evs, &ev{dir: dd, new: entry(nm, false, 1614816000), newParent: dd})
+			default:
+				d, nm := split(r.PickStr(filesNow))
+				evs = append(evs, &ev{dir: d, old: entry(nm, true, 1614816000), delChunks: true})
+				// the source namespace is unchanged; the backup loses the file
+			}
+			out0.Count("local-invalid-event", 1)
 		default:
 			cands := fs.sorted(func(p string, d bool) bool { return d && p != "/" && !fs.hasChildren(p) })
 			if len(cands) == 0 {
@@ -491,6 +665,8 @@ func genLocalHistory(r *hx.Rng, n int, renamePct int) []*ev {
 	return evs
 }
 
+var localSrc *source.FilerSource
+
 func runLocal(out *hx.Out, c conf, evs []*ev, kind string) {
 	root, err := os.MkdirTemp("", "c36-local-")
 	hx.Must(err)
@@ -499,7 +675,13 @@ func runLocal(out *hx.Out, c conf, evs []*ev, kind string) {
 	hx.Must(err)
 	ls := &localsink.LocalSink{}
 	hx.Must(ls.Initialize(mapCfg{"directory": root + c.tgt, "is_incremental": "false"}, ""))
-	ls.SetSourceFiler(&source.FilerSource{})
+	startBlobServer()
+	if localSrc == nil {
+		serve(&fakeFiler{})
+		localSrc = &source.FilerSource{}
+		hx.Must(localSrc.DoInitialize("", lastGrpcAddr, "/", false))
+	}
+	ls.SetSourceFiler(localSrc)
 	f := command.VerifC36GenProcessFunction(c.src, ls.GetSinkToDirectory(), ls, false)
 	var errs, coqEvs, canon []string
 	for _, e := range evs {
@@ -512,7 +694,7 @@ func runLocal(out *hx.Out, c conf, evs []*ev, kind string) {
 			out.Count("local-event-error", 1)
 		}
 	}
-	var tree []string
+	var tree, data []string
 	hx.Must(filepath.Walk(root, func(p string, info os.FileInfo, err error) error {
 		if err != nil {
 			return err
@@ -521,19 +703,28 @@ func runLocal(out *hx.Out, c conf, evs []*ev, kind string) {
 			return nil
 		}
 		tree = append(tree, hx.Pair(hx.Str(filepath.ToSlash(strings.TrimPrefix(p, root))), hx.Bool(info.IsDir())))
+		if !info.IsDir() {
+			b, err := os.ReadFile(p)
+			hx.Must(err)
+			data = append(data, hx.Pair(hx.Str(filepath.ToSlash(strings.TrimPrefix(p, root))), hx.Bytes(b)))
+			if len(b) > 0 {
+				out.Count("local-file-with-content", 1)
+			}
+		}
 		return nil
 	}))
 	c.inc = false
-	term := fmt.Sprintf("CLocal {| lc_cfg := %s; lc_evs := %s; lc_tree := %s; lc_errs := %s |}",
-		c.coq(), hx.List(coqEvs), hx.List(tree), hx.List(errs))
+	term := fmt.Sprintf("CLocal {| lc_cfg := %s; lc_evs := %s; lc_tree := %s; lc_data := %s; lc_errs := %s |}",
+		c.coq(), hx.List(coqEvs), hx.List(tree), hx.List(data), hx.List(errs))
 	out.Add(term, fmt.Sprintf("local|%v|%s", c, strings.Join(canon, ";")), len(tree) > 0, kind)
 	out.Count(fmt.Sprintf("local-tree-size:%d", len(tree)/4*4), 1)
 }
 
 func main() {
 	out := hx.Flags("C36", 600)
-	out.Rule = "single events (create 35%, delete 20%, in-place update 15%, rename 25%, neither entry 5%; 1/40 with a trailing-slash directory) over directories {/,/data,/data/a,/data/a/b,/data2,/data2/a,/dat,/other,/other/data,/other/data/a} x names {a,b,x,data,data2,dat}, source dir in {/data,/data/,/,/data/a,/data/a/}, target in {/backup,/,/data,/t/u}, incremental 1/5, random UpdateEntry answer, signatures from {0,3,7,9}: 40% through genProcessFunction and 30% through Replicator.Replicate with a recording sink, 10% through the real filer.sync loop + FilerSink against in-process gRPC filers, 20% valid histories (6-14 events, 8% renames) of a simulated source namespace through genProcessFunction into a real LocalSink (final tree compared); the first cases are the fixed witnesses of the known finding (Replicate) and of the repaired defects (sibling prefix, move into the subtree, LocalSink move); non-trivial = at least one sink call / non-empty tree; distinct = canonical configuration + event(s)"
+	out.Rule = "single events (create 35%, delete 20%, in-place update 15%, rename 25%, neither entry 5%; 1/40 with a trailing-slash directory) over directories {/,/data,/data/a,/data/a/b,/data2,/data2/a,/dat,/other,/other/data,/other/data/a} x names {a,b,x,data,data2,dat,'a b'}, source dir in {/data,/data/,/,/data/a,/data/a/} (5/6) or {/data//,data} (1/6), target in {/backup,/,/data,/t/u}, incremental 1/5, random UpdateEntry answer, signatures from {0,3,7,9}: 40% through genProcessFunction (a rewritten response object is processed a second time: kind second-pass) and 30% through Replicator.Replicate with a recording sink, 10% through the real filer.sync loop + FilerSink against in-process gRPC filers (target answers lookups with not-found or an existing entry, 1/2 each; Signatures/IsFromOtherCluster of every RPC compared), 10% synthetic valid histories (6-14 events, 8% renames, files with 1-2 chunks of content, multipart keys under /data/.uploads, 6% invalid events: file below a file, file at a directory, directory delete at a file) of a simulated source namespace through genProcessFunction into a real LocalSink (final tree, file bytes and per-event errors compared), 10% histories of 5-12 operations (create, mkdir, update, delete, recursive delete, rename of files and directories, with signatures) on a REAL in-process filer whose captured events go into the LocalSink (kind real-local), as single events with the real queue key through Replicate/genProcessFunction (real-*), and per operation into the emitted-label check (kind emit); the first cases are the fixed witnesses of the known findings 0 (Replicate) and 1 (recursive delete with signature 7) and of the repaired defects (sibling prefix, move into the subtree, LocalSink move, second pass); non-trivial = at least one sink call / non-empty clash-free tree / operation with >= 2 events; distinct = canonical configuration + event(s)"
 	root := hx.NewRng(out.Seed)
+	out0 = out
 	var pair *grpcPair
 
 	// ----- fixed cases, independent of the seed -----
@@ -542,6 +733,8 @@ func main() {
 	fixed := 0
 	// repaired: rename into the watched subtree, genProcessFunction (was dropped by the early Directory test)
 	runRec(out, "ViaSync", base, &ev{dir: "/other", old: x(), new: x(), newParent: "/data"}, true, "fixed-")
+	// the response object is rewritten in place (NewParentPath mapped): the same object processed twice
+	runRec(out, "ViaSync", base, &ev{dir: "/data/a", old: x(), new: entry("y", false, 1614816000), newParent: "/data/b", delChunks: true}, false, "fixed-")
 	// finding 0: in-place update through Replicate hands NewParentPath over unmapped
 	runRec(out, "ViaReplicate", base, &ev{dir: "/data", old: x(), new: x(), newParent: "/data"}, true, "fixed-")
 	// repaired: rename inside the subtree into a LocalSink (UpdateEntry used to rewrite the old key)
@@ -556,11 +749,37 @@ func main() {
 		runRec(out, via, conf{src: "/data/", tgt: "/backup", sig: 7}, &ev{dir: "/data", new: x(), newParent: "/data"}, true, "fixed-")
 		runRec(out, via, conf{src: "/data/a", tgt: "/backup", sig: 7}, &ev{dir: "/data/a", old: entry("b", true, 0), new: entry("a", true, 0), newParent: "/data"}, true, "fixed-")
 	}
+	// finding 1: the events of a recursive directory delete that carried signature 7 (two-way sync:
+	// the delete came from the filer with signature 7) -- only the directory's own event keeps it
+	{
+		w := newWorld()
+		hx.Must(w.create("/data/a/f", false, 1614816000, nil))
+		hx.Must(w.create("/data/a/b/g", false, 1614816000, nil))
+		w.take()
+		m := &emitted{opKind: "EDelete", top: "/data/a", sigs: []int32{7}, fromOther: true}
+		if e := w.remove("/data/a", true, true, m.sigs); e != "" {
+			panic(e)
+		}
+		m.evs = w.take()
+		w.close()
+		out.Add(m.coq(), "emit-fixed-recursive-delete", true, "fixed-emit")
+		// the child event through the real filer.sync filter towards the filer with signature 7
+		for _, q := range m.evs {
+			if q.key == "/data/a/f" {
+				if pair == nil {
+					pair = newGrpcPair()
+				}
+				runGrpc(out, pair, conf{src: "/data", tgt: "/data", sig: 7, filer: true}, evOf(q), false)
+			}
+		}
+	}
 	fixed = out.Len()
 
-	for i := fixed; i < out.N; i++ {
+	for i := fixed; out.Len() < out.N; i++ {
 		r := root.Fork()
 		switch k := i % 10; {
+		case k == 9:
+			runReal(out, r, "real-local")
 		case k < 4:
 			runRec(out, "ViaSync", genConf(r), genEvent(r), r.Bool(), "")
 		case k < 7:
@@ -574,7 +793,7 @@ func main() {
 			if r.Chance(1, 3) && c.sig != 0 {
 				e.sigs = append(e.sigs, c.sig)
 			}
-			runGrpc(out, pair, c, e)
+			runGrpc(out, pair, c, e, r.Bool())
 		default:
 			c := conf{src: r.PickStr([]string{"/data", "/data/", "/", "/data/a"}), tgt: r.PickStr([]string{"/t", "/t/u"})}
 			runLocal(out, c, genLocalHistory(r, r.Range(6, 14), 8), "local")
